@@ -84,7 +84,7 @@ func VerifC31Step30() { verifC31Step(0x30, 0x40) }
 //verif:harness prop=C31 reach=done unwind=70 values=300 budget=400 thorough.budget=2400
 func VerifC31Step40() { verifC31Step(0x40, 0x50) }
 
-//verif:harness prop=C31 reach=done unwind=70 values=300 budget=400 thorough.budget=6000
+//verif:harness prop=C31 reach=done unwind=70 values=300 budget=400 thorough.budget=9000
 func VerifC31Step50() { verifC31Step(0x50, 0x60) }
 
 //verif:harness prop=C31 reach=done unwind=70 values=300 budget=400 thorough.budget=2400
